@@ -18,6 +18,7 @@ import (
 	"os"
 	"strings"
 	"testing"
+	"testing/synctest"
 	"time"
 
 	"perkeep.org/pkg/index"
@@ -40,6 +41,7 @@ type replayCase struct {
 	Names    []string `json:"history_names"`
 	Step     int      `json:"step"` // compared after delivering History[Step]
 	Scenario string   `json:"scenario"`
+	Schedule []int    `json:"schedule"` // choices among simultaneously ready blobs (index into the parked blobs sorted by set position)
 }
 
 // point is the result of one comparison.
@@ -83,31 +85,56 @@ func obsKey(obs []ob) string {
 	return sb.String()
 }
 
-// runHistory executes one history on a fresh live server and compares at the
-// requested points. feeds counts ReceiveBlob calls made by the harness.
-func runHistory(kind *kvKind, u *universe, hist []int, o runOpts) (pts []point, feeds int, err error) {
+var realStart = time.Now()
+
+// runHistory executes one history on a fresh live server, inside its own
+// synctest bubble, and compares at the requested points. feeds counts
+// ReceiveBlob calls made by the harness; ch dictates (and records) the order
+// in which simultaneously ready blobs are re-indexed.
+func runHistory(t *testing.T, kind *kvKind, u *universe, hist []int, o runOpts, ch *chooser) (pts []point, feeds int, err error) {
+	synctest.Test(t, func(t *testing.T) {
+		// the bubble's clock starts in 2000; claims are dated 2011
+		if d := realStart.Sub(time.Now()); d > 0 {
+			time.Sleep(d)
+		}
+		pts, feeds, err = runHistoryInBubble(kind, u, hist, o, ch)
+	})
+	return
+}
+
+type panicError struct{ v any }
+
+func (p panicError) Error() string { return fmt.Sprintf("panic: %v", p.v) }
+
+func runHistoryInBubble(kind *kvKind, u *universe, hist []int, o runOpts, ch *chooser) (pts []point, feeds int, err error) {
 	set := u.set
 	l, err := newLive(kind, u)
 	if err != nil {
 		return nil, 0, err
 	}
-	defer func() { l.close() }()
 	type kept struct {
 		step int
 		in   *inst
 	}
 	var conts []kept
 	defer func() {
+		if p := recover(); p != nil {
+			err = panicError{p}
+		}
+		// nothing may stay parked when the bubble ends
+		l.pk.settle(l.x.Index, &chooser{})
 		for _, k := range conts {
+			k.in.pk.settle(k.in.x.Index, &chooser{})
 			k.in.close()
 		}
+		l.close()
 	}()
 	want := func(step int, scn string) bool {
 		return (o.onlyStep < 0 || o.onlyStep == step) && (o.onlyScn == "" || o.onlyScn == scn)
 	}
 	var lastObs []ob
 	for step, bi := range hist {
-		if err := l.feed(set.Blobs[bi]); err != nil {
+		if err := l.feed(set.Blobs[bi], ch); err != nil {
 			return pts, feeds, fmt.Errorf("ReceiveBlob(%s) at step %d: %v", set.Blobs[bi].Name, step, err)
 		}
 		feeds++
@@ -118,7 +145,7 @@ func runHistory(kind *kvKind, u *universe, hist []int, o runOpts) (pts []point, 
 		}
 		lobs := observe(u, l.x.Index, l.corp)
 		lastObs = lobs
-		r, err := restart(kind, l.st.kv, srcWith(set, hist[:step+1]), nil, nil)
+		r, err := restart(kind, set, l.st.kv, srcWith(set, hist[:step+1]), nil, nil)
 		if err != nil {
 			return pts, feeds, fmt.Errorf("restart at step %d: %v", step, err)
 		}
@@ -147,16 +174,13 @@ func runHistory(kind *kvKind, u *universe, hist []int, o runOpts) (pts []point, 
 		if err != nil {
 			return pts, feeds, fmt.Errorf("reopen: %v", err)
 		}
-		liveSt := l.st
-		l.st = st2 // so that the deferred close discards the reopened store
-		_ = liveSt
-		in2, err := openInst(st2, srcWith(set, hist))
+		l.st = st2 // the deferred close discards the reopened store; the classification reads its rows
+		in2, err := openInst(st2, srcWith(set, hist), set)
 		if err != nil {
 			return pts, feeds, fmt.Errorf("reopen: %v", err)
 		}
 		robs := observe(u, in2.x.Index, in2.corp)
 		diffs, _ := diffObs(lastObs, robs)
-		// classification needs the rows: they are the same in the reopened store
 		fs, err := l.findings("", lastObs, diffs)
 		if err != nil {
 			return pts, feeds, err
@@ -169,7 +193,7 @@ func runHistory(kind *kvKind, u *universe, hist []int, o runOpts) (pts []point, 
 		liveRows := world.DumpKV(l.st.kv)
 		for _, k := range conts {
 			for _, bi := range hist[k.step+1:] {
-				if err := feedAwait(k.in, set.Blobs[bi]); err != nil {
+				if err := feedAwait(k.in, set.Blobs[bi], ch); err != nil {
 					return pts, feeds, fmt.Errorf("ReceiveBlob(%s) after restart at step %d: %v", set.Blobs[bi].Name, k.step, err)
 				}
 				feeds++
@@ -180,7 +204,7 @@ func runHistory(kind *kvKind, u *universe, hist []int, o runOpts) (pts []point, 
 			if len(types) > 0 {
 				class := scnContinue + ":" + set.Name + ":" + strings.Join(types, ",")
 				p.Findings = []finding{{Sig: "C06|" + kind.Name + "|persisted-rows|" + class, Method: "persisted-rows", Class: class, N: 1,
-					First: diff{M: "persisted-rows", A: fmt.Sprintf("restart after step %d, then the remaining arrivals", k.step), Live: "(uninterrupted run)", Other: text}}}
+					First: diff{M: "persisted-rows", A: fmt.Sprintf("restart after step %d, then the remaining arrivals", k.step+1), Live: "(uninterrupted run)", Other: text}}}
 			}
 			pts = append(pts, p)
 		}
@@ -189,9 +213,11 @@ func runHistory(kind *kvKind, u *universe, hist []int, o runOpts) (pts []point, 
 }
 
 type runner struct {
+	t     *testing.T
 	res   *vk.Result
 	nviol map[string]int
 	u     map[string]*universe
+	all   bool // enumerate every order of simultaneously ready blobs (else: lowest-first and highest-first)
 }
 
 func (r *runner) universe(s *Set) *universe {
@@ -217,8 +243,8 @@ func clip(s string) string {
 	return s
 }
 
-// report confirms (5 re-runs from scratch) and records the findings of one point.
-func (r *runner) report(kind *kvKind, s *Set, hist []int, p point, cont bool) {
+// report confirms (5 re-runs from scratch, same schedule) and records the findings of one point.
+func (r *runner) report(kind *kvKind, s *Set, hist []int, sched []int, p point, cont bool) {
 	u := r.universe(s)
 	sc := r.res.Scenario(kind.Name + "/" + p.Scn)
 	for _, f := range p.Findings {
@@ -228,7 +254,7 @@ func (r *runner) report(kind *kvKind, s *Set, hist []int, p point, cont bool) {
 		}
 		ok := true
 		for i := 0; i < 5 && ok; i++ {
-			pts, _, err := runHistory(kind, u, hist, runOpts{cont: cont, onlyStep: p.Step, onlyScn: p.Scn})
+			pts, _, err := runHistory(r.t, kind, u, hist, runOpts{cont: cont, onlyStep: p.Step, onlyScn: p.Scn}, &chooser{prefix: sched})
 			found := false
 			if err == nil {
 				for _, p2 := range pts {
@@ -246,47 +272,71 @@ func (r *runner) report(kind *kvKind, s *Set, hist []int, p point, cont bool) {
 			r.res.EngineError("difference %s did not reproduce 5/5: %s", f.Sig, w)
 			continue
 		}
-		r.res.Violate(sc, f.Sig, w, replayCase{KV: kind.Name, Set: s.Name, History: hist, Names: histNames(s, hist), Step: p.Step, Scenario: p.Scn})
+		r.res.Violate(sc, f.Sig, w, replayCase{KV: kind.Name, Set: s.Name, History: hist, Names: histNames(s, hist), Step: p.Step, Scenario: p.Scn, Schedule: sched})
 	}
 }
 
-func normPanic(p any) string {
-	msg := fmt.Sprint(p)
+func normMsg(msg string) string {
 	msg = strings.NewReplacer("[", "(", "]", ")", "*", "", "?", "").Replace(msg)
-	if i := strings.Index(msg, "sha224-"); i >= 0 {
-		msg = msg[:i] + "REF"
+	for {
+		i := strings.Index(msg, "sha224-")
+		if i < 0 {
+			break
+		}
+		j := i + len("sha224-")
+		for j < len(msg) && strings.ContainsRune("0123456789abcdef", rune(msg[j])) {
+			j++
+		}
+		msg = msg[:i] + "REF" + msg[j:]
 	}
-	if len(msg) > 100 {
-		msg = msg[:100]
+	if len(msg) > 120 {
+		msg = msg[:120]
 	}
 	return msg
 }
 
-// oneHistory runs and accounts one history.
+// oneHistory runs and accounts one history under every schedule of the tier.
 func (r *runner) oneHistory(kind *kvKind, s *Set, hist []int, cont bool) {
-	u := r.universe(s)
-	defer func() {
-		if p := recover(); p != nil {
-			sc := r.res.Scenario(kind.Name + "/" + scnPrefix)
-			r.res.Violate(sc, "C06|"+kind.Name+"|panic|"+normPanic(p), fmt.Sprintf("set %q, arrivals %v: panic: %v", s.Name, histNames(s, hist), p),
-				replayCase{KV: kind.Name, Set: s.Name, History: hist, Names: histNames(s, hist), Step: -1, Scenario: scnPrefix})
+	var prefix []int
+	last := false
+	for {
+		ch := &chooser{prefix: prefix, last: last}
+		r.oneExecution(kind, s, hist, cont, ch)
+		if r.all {
+			if prefix = ch.next(); prefix == nil {
+				return
+			}
+			continue
 		}
-	}()
-	pts, feeds, err := runHistory(kind, u, hist, runOpts{cont: cont, onlyStep: -1})
+		// quick: lowest-first, then highest-first when there was any choice
+		if last || len(ch.nodes) == 0 {
+			return
+		}
+		last = true
+	}
+}
+
+func (r *runner) oneExecution(kind *kvKind, s *Set, hist []int, cont bool, ch *chooser) {
+	u := r.universe(s)
+	pts, feeds, err := runHistory(r.t, kind, u, hist, runOpts{cont: cont, onlyStep: -1}, ch)
+	sched := append([]int(nil), ch.taken...)
 	scP := r.res.Scenario(kind.Name + "/" + scnPrefix)
 	scP.Executions++
 	scP.Transitions += int64(feeds)
 	if err != nil {
-		// an indexing / restart error: confirm, then report as a violation of its own class
+		// an indexing / restart error or a panic inside perkeep code: confirm, then report under its own class
 		for i := 0; i < 5; i++ {
-			if _, _, err2 := runHistory(kind, u, hist, runOpts{cont: cont, onlyStep: -1}); err2 == nil {
+			if _, _, err2 := runHistory(r.t, kind, u, hist, runOpts{cont: cont, onlyStep: -1}, &chooser{prefix: sched}); err2 == nil {
 				r.res.EngineError("error did not reproduce: set %s arrivals %v: %v", s.Name, histNames(s, hist), err)
 				return
 			}
 		}
-		msg := normPanic(err.Error())
-		r.res.Violate(scP, "C06|"+kind.Name+"|error|"+s.Name+":"+msg, fmt.Sprintf("set %q, arrivals %v: %v", s.Name, histNames(s, hist), err),
-			replayCase{KV: kind.Name, Set: s.Name, History: hist, Names: histNames(s, hist), Step: -1, Scenario: scnPrefix})
+		class := "error"
+		if _, ok := err.(panicError); ok {
+			class = "panic"
+		}
+		r.res.Violate(scP, "C06|"+kind.Name+"|"+class+"|"+s.Name+":"+normMsg(err.Error()), fmt.Sprintf("set %q, arrivals %v: %v", s.Name, histNames(s, hist), err),
+			replayCase{KV: kind.Name, Set: s.Name, History: hist, Names: histNames(s, hist), Step: -1, Scenario: scnPrefix, Schedule: sched})
 		return
 	}
 	for _, p := range pts {
@@ -300,10 +350,10 @@ func (r *runner) oneHistory(kind *kvKind, s *Set, hist []int, cont bool) {
 		}
 		sc.Outcome(p.Outcome)
 		if len(sc.Samples) < 2 {
-			sc.Sample(map[string]any{"set": s.Name, "arrivals": histNames(s, hist), "compared_after_arrival": p.Step + 1, "queries_compared": p.NQueries, "differences": len(p.Findings)})
+			sc.Sample(map[string]any{"set": s.Name, "arrivals": histNames(s, hist), "schedule": sched, "compared_after_arrival": p.Step + 1, "answers_compared": p.NQueries, "differing_signatures": len(p.Findings)})
 		}
 		if len(p.Findings) > 0 {
-			r.report(kind, s, hist, p, cont)
+			r.report(kind, s, hist, sched, p, cont)
 		}
 	}
 }
@@ -348,7 +398,7 @@ func TestCheck(t *testing.T) {
 		"the asynchronous out-of-order re-indexing is awaited (VerifAwaitReindex) after every arrival: only quiescent points are compared",
 		"blobs are signed with the two test key rings of pkg/jsonsign/testdata; claim dates on one permanode are distinct",
 	}
-	r := &runner{res: res, nviol: map[string]int{}, u: map[string]*universe{}}
+	r := &runner{t: t, res: res, nviol: map[string]int{}, u: map[string]*universe{}, all: vk.Thorough()}
 	if rp, ok := vk.ReplayFile(); ok {
 		r.replay(rp)
 		res.Write()
@@ -417,7 +467,7 @@ func (r *runner) replay(rp map[string]any) {
 		return
 	}
 	u := r.universe(set)
-	pts, _, err := runHistory(kind, u, rc.History, runOpts{cont: rc.Scenario == scnContinue, onlyStep: rc.Step, onlyScn: rc.Scenario})
+	pts, _, err := runHistory(r.t, kind, u, rc.History, runOpts{cont: rc.Scenario == scnContinue, onlyStep: rc.Step, onlyScn: rc.Scenario}, &chooser{prefix: rc.Schedule})
 	if err != nil {
 		r.res.Violate(r.res.Scenario(kind.Name+"/"+rc.Scenario), wantSig, "replayed: "+err.Error(), rc)
 		return
